@@ -20,8 +20,6 @@ pub enum ParserOp {
     PushLast,
     PopLast,
     SetType(String),
-    /// head of a parser loop (`op_until` and the explicit loops), with the pass index at that time
-    Loop(u32, usize),
 }
 
 thread_local! {
